@@ -133,10 +133,11 @@ func meekLeft(settle time.Duration) (left []string, sleeping int) {
 }
 
 type rdResult struct {
-	n     int
-	err   error
-	panic interface{}
-	stack string
+	maxRead int
+	n       int
+	err     error
+	panic   interface{}
+	stack   string
 }
 
 // RunMeek runs one meek_lite case.  The transport is inherently timing-driven (polling), so
@@ -145,6 +146,10 @@ type rdResult struct {
 // bound, and after Close + cut of every connection all goroutines of the package end.
 func RunMeek(x *Ctx) {
 	c := x.Case
+	if c.Gen == "oversized" {
+		runMeekOversized(x)
+		return
+	}
 	rng := vlib.NewRng(c.Seed)
 	t := transports.Get("meek_lite")
 	if t == nil {
@@ -261,6 +266,9 @@ func RunMeek(x *Ctx) {
 		if n > B("meek") {
 			x.Violate("buffer-unbounded", fmt.Sprintf("%d bytes of responses queued (%s), bound %d", n, when, B("meek")))
 		}
+		if co, lim, ok := meeklite.VerifC10CarryOver(conn); ok && co > lim {
+			x.Violate("response-over-limit", fmt.Sprintf("%d bytes of one response body kept between Read calls (%s), per-response limit %d", co, when, lim))
+		}
 	}
 	outcome := ""
 	switch {
@@ -324,6 +332,9 @@ func RunMeek(x *Ctx) {
 			for {
 				n, err := conn.Read(buf)
 				total += n
+				if n > r.maxRead {
+					r.maxRead = n
+				}
 				if err != nil || total >= 65536 || (n > 0 && !expectErr) {
 					r.n, r.err = total, err
 					return
@@ -339,6 +350,9 @@ func RunMeek(x *Ctx) {
 			if r.panic != nil {
 				site, class := PanicSite(r.panic, r.stack)
 				x.Violate("panic-"+site+"-"+class, fmt.Sprintf("Read panicked: %v\n%s", r.panic, trimStack(r.stack, 1500)))
+			}
+			if r.maxRead > 65536 {
+				x.Violate("response-over-limit", fmt.Sprintf("one Read returned %d bytes: a single response body larger than the 65536-byte limit was taken in whole", r.maxRead))
 			}
 			outcome = fmt.Sprintf("read:%s;err:%s", SizeClass(r.n), ErrClass(r.err))
 			x.Nontrivial = true
@@ -424,4 +438,170 @@ func leakSite(stack string) string {
 		}
 	}
 	return fn + "-" + op
+}
+
+// oversized responses: body size × framing
+var meekOverSizes = []int{65537, 1 << 20, 8 << 20}
+var meekOverFraming = []string{"content-length", "chunked", "until-eof"}
+
+// MeekOversizedCombos is the number of (size, framing) combinations of the generator "oversized".
+const MeekOversizedCombos = 9
+
+// runMeekOversized: one 200 response whose body exceeds maxPayloadLength (64 KiB + 1, 1 MiB,
+// 8 MiB; with Content-Length, chunked, or delimited by EOF).  The client must not hold more than
+// the stated meek bound: measured by the hooks (queue × limit + carry-over), by the size of what
+// a single Read can return (one response body, at most the limit), and — as a cross-check that
+// does not rely on the package's own invariant — by the Go heap after GC, minus what the
+// harness itself still holds for the transport to read.
+func runMeekOversized(x *Ctx) {
+	c := x.Case
+	rng := vlib.NewRng(c.Seed)
+	size := meekOverSizes[(c.A/3)%3]
+	framing := meekOverFraming[c.A%3]
+	desc := fmt.Sprintf("200 response, body %d bytes, %s", size, framing)
+	t := transports.Get("meek_lite")
+	cf, _ := t.ClientFactory("")
+	args := &pt.Args{}
+	args.Add("url", "http://meek.invalid/")
+	ca, err := cf.ParseArgs(args)
+	if err != nil {
+		panic(err)
+	}
+	before := heapNow()
+	var raw []byte
+	{
+		body := rng.Bytes(size)
+		switch framing {
+		case "content-length":
+			raw = httpOK(body)
+		case "chunked":
+			var b bytes.Buffer
+			b.WriteString("HTTP/1.1 200 OK\r\nTransfer-Encoding: chunked\r\n\r\n")
+			for off := 0; off < len(body); {
+				n := 1 + rng.Intn(60000)
+				if off+n > len(body) {
+					n = len(body) - off
+				}
+				fmt.Fprintf(&b, "%x\r\n", n)
+				b.Write(body[off : off+n])
+				b.WriteString("\r\n")
+				off += n
+			}
+			b.WriteString("0\r\n\r\n")
+			raw = b.Bytes()
+		default:
+			raw = append([]byte("HTTP/1.1 200 OK\r\n\r\n"), body...)
+		}
+	}
+	after := ""
+	if framing == "until-eof" {
+		after = "eof"
+	}
+	peer := &meekPeer{idle: httpOK(nil), script: []meekResp{{Raw: raw, After: after}}}
+	raw = nil
+	c.Input = ""
+	conn, err := cf.Dial("tcp", "", peer.dial, ca)
+	if err != nil {
+		x.Outcome = "dial-err:" + ErrClass(err)
+		return
+	}
+	x.Nontrivial = true
+	conn.Write([]byte("x"))
+	// wait until the worker has taken the response and moved on (it polls again at once after
+	// data: a second request), or has queued something
+	deadline := time.Now().Add(30 * time.Second)
+	for time.Now().Before(deadline) {
+		rd, _, _ := meeklite.VerifC10Backlog(conn)
+		peer.mu.Lock()
+		nreq := peer.Requests
+		peer.mu.Unlock()
+		if rd >= 1 && nreq >= 2 {
+			break
+		}
+		time.Sleep(2 * time.Millisecond)
+	}
+	// what the client holds now, nothing having been read by the application
+	peer.mu.Lock()
+	peer.script = nil
+	held := 0
+	for _, pc := range peer.conns {
+		held += pc.Pending() // still queued inside the harness conn: not the client's
+	}
+	peer.mu.Unlock()
+	heap := int64(heapNow()) - int64(before) - int64(held)
+	if n, ok := meeklite.VerifC10Buffered(conn); ok && n > B("meek") {
+		x.Violate("buffer-unbounded", fmt.Sprintf("%s: hook reports %d bytes queued, bound %d", desc, n, B("meek")))
+	}
+	slack := int64(3 << 20) // net/http buffers, goroutine stacks, GC noise
+	if heap > int64(B("meek"))+slack {
+		x.Violate("memory-retained", fmt.Sprintf("%s: with nothing read by the application the heap grew by %d bytes (harness-held %d already subtracted); the connection may hold %d (bound) + %d (slack)", desc, heap, held, B("meek"), slack))
+	}
+	x.R.Count(c.Prefix()+"/oversized-heap-delta", SizeClass(int(max64(heap, 0))))
+	// what Read then delivers: at most one body of at most the limit per call
+	buf := make([]byte, 16<<20)
+	delivered, maxRead := 0, 0
+	type rr struct {
+		n   int
+		err error
+	}
+	for {
+		ch := make(chan rr, 1)
+		go func() {
+			defer func() {
+				if p := recover(); p != nil {
+					ch <- rr{-1, fmt.Errorf("panic: %v", p)}
+				}
+			}()
+			n, err := conn.Read(buf)
+			ch <- rr{n, err}
+		}()
+		var r rr
+		select {
+		case r = <-ch:
+		case <-time.After(400 * time.Millisecond):
+			// nothing more is coming (the peer answers further polls with empty bodies): stop
+			conn.Close()
+			peer.shutdown()
+			r = <-ch
+			r.n, r.err = 0, io.EOF
+		}
+		if r.n < 0 {
+			x.Violate("panic-Read-explicit", fmt.Sprintf("%s: %v", desc, r.err))
+			break
+		}
+		delivered += r.n
+		if r.n > maxRead {
+			maxRead = r.n
+		}
+		if co, lim, ok := meeklite.VerifC10CarryOver(conn); ok && co > lim {
+			x.Violate("response-over-limit", fmt.Sprintf("%s: %d bytes of one response body kept between Read calls, limit %d", desc, co, lim))
+		}
+		if r.err != nil {
+			break
+		}
+	}
+	buf = nil
+	if maxRead > 65536 {
+		x.Violate("response-over-limit", fmt.Sprintf("%s: one Read returned %d bytes: a response body larger than the 65536-byte limit was taken in whole", desc, maxRead))
+	}
+	rest := "all-delivered"
+	switch {
+	case delivered == 65536:
+		rest = "first-64KiB-delivered-rest-dropped-silently"
+	case delivered < size:
+		rest = "partly-delivered"
+	}
+	x.Outcome = fmt.Sprintf("oversized-%s-%s:%s", SizeClass(size), framing, rest)
+	conn.Close()
+	peer.shutdown()
+	left, _ := meekLeft(5 * time.Second)
+	if len(left) > 0 {
+		left, _ = meekLeft(15 * time.Second)
+	}
+	if len(left) > 0 {
+		x.Violate("goroutine-leak-"+leakSite(left[0]), fmt.Sprintf("%s: %d goroutine(s) still running after Close and cut:\n%s", desc, len(left), trimStack(left[0], 2000)))
+		MarkLeaked(left)
+	}
+	x.R.Count(c.Prefix()+"/outcome", x.Outcome)
+	x.R.Sample(3, map[string]interface{}{"case": c.Key(), "input": desc, "outcome": x.Outcome, "delivered": delivered, "max_single_read": maxRead, "heap_delta_client": heap})
 }
